@@ -645,6 +645,7 @@ def sample_of(cfg, res):
             "schedules_run": (res.get("extra") or {}).get("schedules"), "violations": len(res["violations"])}
 
 
+SIM_TIME_MEASURE = "logical time: kernel invocations issued by the simulated schedules (scheduler_steps_total)"
 SCHEDULE_SHRINK = False
 CHUNK = 16
 CHUNK_TIMEOUT = 900
